@@ -1,4 +1,4 @@
-import BytomModel.Drv.C31
+import BytomModel.Drv.C32
 def main (args : List String) : IO UInt32 := do
-  BytomModel.Drv.C31.run args
+  BytomModel.Drv.C32.run args
   return 0
